@@ -780,6 +780,110 @@ def r9(p, rep):
         raise AnalysisError("unrecognised idiom: _get_by_tensors never checks for newly imported frameworks")
 
 
+_DEFERRED = "uninitialized_backends"
+
+
+def _own_exprs(n):
+    """The expressions evaluated AT a CFG node (not the bodies nested under it)."""
+    a = n.ast
+    if a is None or n.kind in ("edge", "join", "entry", "exit", "raise"):
+        return []
+    if n.kind == "loop":
+        return [a.iter]
+    if n.kind == "test":
+        return [n.test] if n.test is not None else []
+    if isinstance(a, (ast.With, ast.AsyncWith)):
+        return [i.context_expr for i in a.items]
+    if isinstance(a, (ast.If, ast.For, ast.While, ast.Try, ast.FunctionDef, ast.AsyncFunctionDef, ast.ClassDef, ast.Match)):
+        return []
+    return [a]
+
+
+def _direct_kinds(expr):
+    """Which of DEFER / RUN / CONSUME does this expression do itself?"""
+    kinds = set()
+    for x in ast.walk(expr):
+        if isinstance(x, ast.Delete) and any(_DEFERRED in norm(t) for t in x.targets):
+            kinds.add("consume")
+        elif isinstance(x, ast.Call) and isinstance(x.func, ast.Attribute):
+            recv = norm(x.func.value)
+            if x.func.attr in ("pop", "popitem", "clear") and recv.endswith(_DEFERRED):
+                kinds.add("consume")
+            elif x.func.attr in ("append", "extend", "insert") and _DEFERRED in recv:
+                kinds.add("defer")
+            elif x.func.attr == "_run_factory":
+                kinds.add("run")
+        elif isinstance(x, (ast.Assign, ast.AugAssign, ast.AnnAssign)):
+            tg = x.targets if isinstance(x, ast.Assign) else [x.target]
+            v = x.value
+            empty = isinstance(v, (ast.List, ast.Tuple, ast.Dict, ast.Set)) and not (v.elts if not isinstance(v, ast.Dict) else v.keys)
+            if v is not None and not empty and any(isinstance(t, ast.Subscript) and norm(t.value).endswith(_DEFERRED) for t in tg):
+                kinds.add("defer")
+    return kinds
+
+
+def r10(p, rep):
+    title = "a lazily registered factory runs at most once: no path runs a factory and leaves an entry for it waiting"
+    f0 = p.func("BackendRegistryState._check_new_imports", "frontend.backend")
+    cls = f0.cls
+    if "_run_factory" not in cls.methods:
+        # The rule is written for the shape "factories are run by BackendRegistryState._run_factory".  A tree that runs them some other
+        # way (e.g. a pending-backend object with its own create()) is not decided by it - said here rather than guessed at.
+        rep.rule("C11.R10", title, "T-PATH [S]", floor=0)
+        rep.info["C11.R10"] = "not decided on this tree: BackendRegistryState has no _run_factory method, the run sites of deferred factories are not identified"
+        return
+    rep.rule("C11.R10", title, "T-PATH [S]", floor=2)
+    methods = [m for m in cls.methods.values()]
+    summary = {}  # method name -> kinds its body does directly (one level of self.<helper>() is seen through)
+    for m in methods:
+        ks = set()
+        for st in m.node.body:
+            ks |= _direct_kinds(st)
+        summary[m.node.name] = ks
+    runs_total = 0
+    for m in methods:
+        selfname = m.node.args.args[0].arg if m.node.args.args else None
+        cfg = CFG(m.node)
+        reach = cfg.reachable()
+        kinds_at = {}
+        for n in cfg.nodes:
+            if n.id not in reach:
+                continue
+            ks = set()
+            for e in _own_exprs(n):
+                ks |= _direct_kinds(e)
+                for c in ast.walk(e):
+                    if isinstance(c, ast.Call) and isinstance(c.func, ast.Attribute) and isinstance(c.func.value, ast.Name) and c.func.value.id == selfname and c.func.attr in summary and c.func.attr != "_run_factory":
+                        ks |= summary[c.func.attr] - {"run"}
+            if ks:
+                kinds_at[n.id] = ks
+        runs = [cfg.nodes[i] for i, k in kinds_at.items() if "run" in k]
+        defers = [cfg.nodes[i] for i, k in kinds_at.items() if "defer" in k]
+        consumes = [cfg.nodes[i] for i, k in kinds_at.items() if "consume" in k]
+        runs_total += len(runs)
+        for r in runs:
+            site = f"{m.module.rel}:{getattr(r.ast, 'lineno', m.node.lineno)}"
+            # (a) the factory that runs here was put aside earlier on the same path: the entry must be taken back
+            bad = None
+            for d in defers:
+                if d is r or not cfg.can_reach(d, r, avoid=[c for c in consumes if c is not d and c is not r]):
+                    continue
+                if r in consumes or not cfg.can_reach(r, cfg.exit, avoid=[c for c in consumes if c is not r]):
+                    continue
+                bad = d
+                break
+            ok = bad is None
+            rep.add("C11.R10", f"{m.qualname}:run-after-defer", site, ok, "no path puts a factory aside and then runs it without taking the entry back" if ok else f"a path through line {getattr(bad.ast, 'lineno', '?')} stores the factory under a module that is not imported yet, reaches this `_run_factory` call and returns with the stored entry still waiting: when that module is imported later the factory runs a second time and two backends of the same name and priority are registered, so selection by tensor type then fails with 'Multiple registered backends'")
+            # (b) the factory that runs here was read from the waiting list: the entry is consumed on every path through the call
+            loops = [a for a in parents(r.ast) if isinstance(a, (ast.For, ast.comprehension)) and _DEFERRED in norm(a.iter)] if r.ast is not None else []
+            if loops:
+                others = [c for c in consumes if c is not r]
+                leak = r not in consumes and cfg.can_reach(cfg.entry, r, avoid=others) and cfg.can_reach(r, cfg.exit, avoid=others)
+                rep.add("C11.R10", f"{m.qualname}:consume-waiting-entry", site, not leak, "the waiting entry is removed before or after its factories run, on every path through the call" if not leak else "a path runs the factories waiting for a module and returns without removing the entry: the next scan for new imports would run them again")
+    if runs_total == 0:
+        raise AnalysisError("anchor lost: BackendRegistryState._run_factory exists but none of the class's methods calls it")
+
+
 def run(p, rep, tier):
     r1(p, rep)
     r2(p, rep)
@@ -790,6 +894,7 @@ def run(p, rep, tier):
     r7(p, rep)
     r8(p, rep)
     r9(p, rep)
+    r10(p, rep)
     from . import c06, c10
 
     rep.rule("C06.R5", "no hidden state survives a lookup: no mutable default arguments", "inventory", floor=50)
